@@ -215,7 +215,7 @@ void harness(void)
          * The layout is concrete (one query per layout), every digit is symbolic. */
         static const char tmpl[] = VP_TMPL;
         char s[sizeof(tmpl)];
-        unsigned len = sizeof(tmpl) - 1, p, ngroups = 0, val = 0, have = 0, plen = 0, in_plen = 0, wild = 0, v6 = 0, dbl = 0, ok = 1;
+        unsigned len = sizeof(tmpl) - 1, p, ngroups = 0, val = 0, have = 0, plen = 0, in_plen = 0, wild = 0, v6 = 0, dbl = 0, dblpos = 0, ok = 1;
         unsigned grp[9];
         for (p = 0; p < len; p++) {
             char c = tmpl[p];
@@ -236,14 +236,18 @@ void harness(void)
                 have = 1;
             } else if (c == '.' || c == ':' || c == '/' || c == '\0' || c == '*') {
                 if (have && ngroups < 8) grp[ngroups++] = val;
-                if (c == ':' && tmpl[p + 1] == ':') dbl = 1;
+                if (c == ':' && tmpl[p + 1] == ':' && !dbl) { dbl = 1; dblpos = ngroups; }
                 val = 0; have = 0;
                 if (c == '/') in_plen = 1;
                 if (c == '*') wild = 1;
             }
         }
         if (v6) {
-            for (p = 0; p < ngroups; p++) { want[2 * p] = (uint8_t)(grp[p] >> 8); want[2 * p + 1] = (uint8_t)grp[p]; }
+            /* groups written before a "::" start at the front, those after it end at the back */
+            for (p = 0; p < ngroups; p++) {
+                unsigned at = (dbl && p >= dblpos) ? 8 - (ngroups - p) : p;
+                want[2 * at] = (uint8_t)(grp[p] >> 8); want[2 * at + 1] = (uint8_t)grp[p];
+            }
             if (wild) plen = 16 * ngroups;
             else if (!in_plen) plen = 128;
             if (plen > 128) ok = 0;
@@ -255,7 +259,6 @@ void harness(void)
             if (plen > 32) ok = 0;
             plen += 96;
         }
-        (void)dbl;
         if (wild && ngroups == 0) {     /* a bare "*" (or "**"): everything */
             plen = 0;
             want[10] = want[11] = 0;
